@@ -20,14 +20,26 @@ class TopologicalSortPass(ir.passes.InPlacePass):
     """
 
     def call(self, model: ir.Model) -> ir.passes.PassResult:
+        scopes: list[ir.Graph | ir.Function] = [model.graph, *model.functions.values()]
+        # Each sort() is all-or-nothing for its own scope. Remember every order so that a
+        # cycle found in a later scope leaves the scopes sorted before it unchanged too.
+        saved_orders = [
+            (graph, tuple(graph)) for scope in scopes for graph in (scope, *scope.subgraphs())
+        ]
         # Graph.sort also sorts the nested subgraphs, so compare the order in every scope
-        original_nodes = list(model.graph.all_nodes())
-        model.graph.sort()
-        sorted_nodes = list(model.graph.all_nodes())
-        for function in model.functions.values():
-            original_nodes.extend(function.all_nodes())
-            function.sort()
-            sorted_nodes.extend(function.all_nodes())
+        original_nodes: list[ir.Node] = []
+        sorted_nodes: list[ir.Node] = []
+        try:
+            for scope in scopes:
+                original_nodes.extend(scope.all_nodes())
+                scope.sort()
+                sorted_nodes.extend(scope.all_nodes())
+        except ValueError:
+            for graph, nodes in saved_orders:
+                if tuple(graph) != nodes:
+                    # Moving the nodes in their previous order restores it
+                    graph.extend(nodes)
+            raise
 
         # Compare node orders to determine if any changes were made
         modified = False
